@@ -313,6 +313,29 @@ func runUnit(spec *Spec, o *checkOpts, openKnown map[string]bool, openList []Kno
 		}
 	}
 
+	// replay at most maxReplay counterexamples per unit: one per distinct
+	// (entry, message, probe) first, then in discovery order
+	const maxReplay = 8
+	if len(cexs) > maxReplay {
+		var first, rest []cex
+		seen := map[string]bool{}
+		for _, c := range cexs {
+			k := c.Entry + "|" + c.V.Msg + "|" + c.Probe
+			if !seen[k] {
+				seen[k] = true
+				first = append(first, c)
+			} else {
+				rest = append(rest, c)
+			}
+		}
+		cexs = append(first, rest...)
+		if len(cexs) > maxReplay && len(first) <= maxReplay {
+			cexs = cexs[:maxReplay]
+		} else if len(first) > maxReplay {
+			cexs = first
+		}
+	}
+
 	confirmed := map[string]replayOutcome{}
 	if len(cexs) > 0 && !o.noReplay {
 		var items [][2]string
